@@ -410,9 +410,19 @@ func (c *c) GetService(defaultNamespace, serviceName string) (*api.Service, erro
 }
 
 func (c *c) GetEndpointSlices(service *api.Service) ([]*discoveryv1.EndpointSlice, error) {
-	// TODO: endpoint slices to be implemented for new controller runtime. For now
-	// only exists in legacy controller.
-	return nil, nil
+	list := discoveryv1.EndpointSliceList{}
+	err := c.client.List(c.ctx, &list,
+		client.InNamespace(service.Namespace),
+		client.MatchingLabels{discoveryv1.LabelServiceName: service.Name},
+	)
+	if err != nil {
+		return nil, err
+	}
+	slices := make([]*discoveryv1.EndpointSlice, len(list.Items))
+	for i := range list.Items {
+		slices[i] = &list.Items[i]
+	}
+	return slices, nil
 }
 
 func (c *c) GetEndpoints(service *api.Service) (*api.Endpoints, error) {
